@@ -248,7 +248,11 @@ C09All == { [st |-> Select(<<Aggs(x, xf)[k]>>, w, <<>>, <<>>, NoLim), sid |-> si
               k \in 1..14, w \in {All, ABin(">", AKey, AStr(a)), ABin("=", AKey, AStr(<<122, 122>>))},
               x \in {Call1("int", AVal)}, xf \in {Call1("float", AVal)}, sid \in {"I", "F"} }
           \cup { [st |-> Select(<<F(Call1("count", AInt(1)), ""), F(Call1("sum", Call1("int", AVal)), ""), F(Call1("max", Call1("int", AVal)), "")>>, All, <<>>, <<>>, NoLim), sid |-> sid] : sid \in {"I", "E", "S40"} }
-C09Cases == C09Grouped \cup C09All
+\* an aggregate field that refers to another aggregate field by its name (per-group value, never the previous group's)
+CF1 == F(Call1("count", AInt(1)), "c")
+C09Refs == { [st |-> Select(<<F(ACall("substr", <<AKey, AInt(0), AInt(1)>>), "p"), CF1, F(ABin(op, Call1("sum", Call1("strlen", AKey)), AName("c")), "a")>>, w, <<>>, <<1>>, lim), sid |-> sid] :
+               op \in {"*", "+", "-"}, w \in {All, ABin("!=", AKey, AStr(dd))}, lim \in {NoLim, Lim(1, 2)}, sid \in {"G", "I", "T"} }
+C09Cases == C09Grouped \cup C09All \cup C09Refs
 
 -----------------------------------------------------------------------------
 (* c05: aliases and the field cache.  Stores in which the first, middle and last scanned rows fail the filter. *)
